@@ -23,7 +23,20 @@ def setup():
 
 
 def correspondence(ctx):
-    return W.correspondence_for(PROP, ctx, "C01 judges: C01_nil_holds, C01_we_holds, C01_compl_holds, C01_compl_total_holds, C01_no_foreign_holds, C01_dups_holds on every history.")
+    out = W.correspondence_for(PROP, ctx, "C01 judges: C01_nil_holds, C01_we_holds, C01_compl_holds, C01_compl_total_holds, C01_no_foreign_holds, C01_dups_holds on every history.")
+    # the acknowledgement as a real broker of every Produce version encodes it (hand-laid responses,
+    # real kafka.Transport): checks/c05.py produce_version_cases — an applied and acknowledged batch is
+    # reported as success, sent once, and each message is once in the log
+    try:
+        import importlib
+        pv = importlib.import_module("checks.c05").produce_version_cases(ctx)
+        out["failures"] = out.get("failures", []) + pv.get("failures", [])
+        out["evaluations"] = out.get("evaluations", 0) + pv.get("evaluations", 0)
+        out["distinct_nontrivial"] = out.get("distinct_nontrivial", 0) + pv.get("distinct_nontrivial", 0)
+        out.setdefault("hist", {}).update(pv.get("hist", {}))
+    except (ModuleNotFoundError, AttributeError):
+        out.setdefault("notes", []).append("checks/c05.py has no produce_version_cases yet")
+    return out
 
 
 def search(ctx, violations):
